@@ -146,3 +146,11 @@ Lemma src_operators_ok : map (fun p => u (snd p)) src_operators = ops_of_model /
 Proof. split; reflexivity. Qed.
 Lemma src_make_constant_ok : src_make_constant = model_make_constant.       Proof. reflexivity. Qed.
 Lemma src_create_component_ok : src_create_component = model_create_component. Proof. reflexivity. Qed.
+Lemma src_make_object_path_ok : src_make_object_path = model_make_object_path. Proof. reflexivity. Qed.
+Lemma model_make_object_path_ok : forall lhs,
+  make_object_path lhs =
+  match split_all 58 lhs with
+  | ty :: p :: _ => Ok (APath ty (map create_component_str (split_all 46 p)))
+  | _ => Raise IndexError
+  end.
+Proof. reflexivity. Qed.
